@@ -16,14 +16,79 @@ BASE_NOTE = ("Trusted: Coq 8.16.1 kernel (vm_compute in reflection proofs, no na
              "/repo (Go harness vs ExtrOcamlBasic-extracted runner) through the property's projection; tools/gen_consts; "
              "the Go oracles. ")
 
+ENGINE = ("Theorems about the executable Gallina model of the engine (ModelGame.v: create/step/view/erase); the model is "
+          "tied to /repo on every run by playing generated hands on the Go engine and on the extracted model and "
+          "comparing this property's projection of the state after every operation, plus adversarial attempts "
+          "(every seat x every action x boundary amounts) on JSON clones; an independent Go oracle states the property "
+          "on the implementation's traces and supplies concrete replays. ")
+SEAT = ("Theorems about the executable model of SeatManager (ModelSeat.v) for tables of any size and any history; tied to "
+        "/repo by random histories and by the complete reachable graph for small tables (Go vs extracted model, every "
+        "transition); independent Go oracle on the implementation. ")
+REG = ("Theorems about the executable model of the regulator (ModelReg.v, float expressions as exact integer arithmetic, "
+       "map-order choices as parameters); tied to /repo by random histories with an instruction-following environment "
+       "(Go vs extracted model: counters, queue, every table record, every callback payload); independent Go oracle. ")
+PURE = ("Theorems about the executable model of the package; tied to /repo by differential execution on generated and "
+        "exhaustively enumerated inputs; independent Go oracle on the implementation's output. ")
+
+PART = " What is proved so far and what is only tested is listed per property in DESIGN.md section 9."
+
 CHECKS = [
+    chk("C01", ENGINE + "Proved: every payment keeps the paying seat's chip identity and moves nobody else's chips." + PART,
+        BASE_NOTE + "Amounts in Z (int64 = Z while the sum of bankrolls stays below 2^61).",
+        "Coq proof over a Gallina model + differential correspondence with the Go code", "DESIGN.md §4 C01, §9"),
+    chk("C02", PURE + "Settlement and pot models; the engine's showdowns are compared as well." + PART,
+        BASE_NOTE + "Scores are positive exactly for the non-folded players.",
+        "Coq proof over a Gallina model + differential correspondence with the Go code", "DESIGN.md §4 C02, §9"),
+    chk("C03", PURE + "The evaluator model runs over constant tables regenerated from the Go source on every run." + PART,
+        BASE_NOTE + "Hands are five distinct cards of the 52-card deck.",
+        "Coq proof (reflection over the finite set of hand classes) + differential correspondence", "DESIGN.md §4 C03, §9"),
+    chk("C04", ENGINE + "Proved for every state: a table operation in the wrong phase and any action the addressed seat was "
+        "not offered are refused with the error and leave the state unchanged." + PART, BASE_NOTE,
+        "Coq proof over a Gallina model + differential correspondence with the Go code", "DESIGN.md §4 C04, §9"),
+    chk("C05", ENGINE + PART, BASE_NOTE,
+        "Coq proof over a Gallina model + differential correspondence with the Go code", "DESIGN.md §4 C05, §9"),
+    chk("C06", ENGINE + "Proved: a closed hand refuses every operation without change." + PART, BASE_NOTE,
+        "Coq proof over a Gallina model + differential correspondence with the Go code", "DESIGN.md §4 C06, §9"),
+    chk("C07", ENGINE + "Every operation is also run through table.NativeBackend from the serialised state and the two "
+        "states are compared as JSON; a reflect-based schema pin guards new fields." + PART, BASE_NOTE + "encoding/json is modelled, not verified.",
+        "Coq proof over a Gallina model + differential correspondence (in-memory vs JSON-rebuilt vs model)", "DESIGN.md §4 C07, §9"),
+    chk("C08", SEAT + "Reported against known finding F11." + PART, BASE_NOTE,
+        "Coq proof over a Gallina model + complete-graph correspondence for small tables", "DESIGN.md §4 C08, §9"),
+    chk("C09", REG + "Proved: calls naming an unknown table and registrations after the deadline are refused without change." + PART,
+        BASE_NOTE, "Coq proof over a Gallina model + differential correspondence with the Go code", "DESIGN.md §4 C09, §9"),
+    chk("C10", PURE + "Proved: Gosper enumeration is complete for up to 9 cards; the reported hand is the evaluation of a "
+        "candidate that no candidate out-scores." + PART, BASE_NOTE,
+        "Coq proof over a Gallina model + differential correspondence with the Go code", "DESIGN.md §4 C10, §9"),
+    chk("C11", ENGINE + "Proved: the offer table, clause by clause, for every state." + PART, BASE_NOTE,
+        "Coq proof over a Gallina model + differential correspondence with the Go code", "DESIGN.md §4 C11, §9"),
+    chk("C12", ENGINE + "Proved: raises below the wager to match (or to 0) and non-positive bets are refused without change." + PART,
+        BASE_NOTE, "Coq proof over a Gallina model + differential correspondence with the Go code", "DESIGN.md §4 C12, §9"),
+    chk("C13", ENGINE + "Reported against known finding F10 (blinds skipped when dealer=0, sb=0, bb>0)." + PART, BASE_NOTE,
+        "Coq proof over a Gallina model + differential correspondence with the Go code", "DESIGN.md §4 C13, §9"),
+    chk("C14", ENGINE + "Proved: shuffling (any sequence of swaps) only reorders." + PART, BASE_NOTE + "math/rand is modelled as an arbitrary swap sequence.",
+        "Coq proof over a Gallina model + differential correspondence with the Go code", "DESIGN.md §4 C14, §9"),
+    chk("C15", ENGINE + "Proved in full for every state and every viewer: no deck, no burned cards, hidden seats show neither "
+        "hole cards nor evaluation, everything else is unchanged." + PART, BASE_NOTE + "The schema pin guards fields added later.",
+        "Coq proof over a Gallina model + differential correspondence + JSON leak search", "DESIGN.md §4 C15, §9"),
     chk("C16",
         "Theorems about the executable model of pot.LevelList/GetPots for every contribution/fold vector in any "
         "insertion order; the model is tied to /repo by running both on generated and exhaustively enumerated "
         "vectors and comparing levels, pots and per-pot level lists; an independent Go oracle states the property "
-        "on the implementation's output and supplies concrete replays.",
+        "on the implementation's output and supplies concrete replays." + PART,
         BASE_NOTE + "Eligible players of a pot are read as its non-folded entries (folded players are put back for display).",
-        "Coq proof over a Gallina model + differential correspondence with the Go code", "DESIGN.md §4 C16"),
+        "Coq proof over a Gallina model + differential correspondence with the Go code", "DESIGN.md §4 C16, §9"),
+    chk("C17", SEAT + PART, BASE_NOTE,
+        "Coq proof over a Gallina model + complete-graph correspondence for small tables", "DESIGN.md §4 C17, §9"),
+    chk("C18", SEAT + "Proved for every history: seated players = successful joins - successful leaves; join/leave refusals and "
+        "effects. Partial on the schedule quantifier: each method is taken as atomic under sm.mu (supported by a goroutine "
+        "stress run, not proved)." + PART, BASE_NOTE + "sync.RWMutex atomicity is modelled, not verified.",
+        "Coq proof over a Gallina model + complete-graph correspondence + goroutine stress", "DESIGN.md §4 C18, §9"),
+    chk("C19", REG + "Reported against known findings F12a/F12b (over-capacity hand-outs). Proved: nothing is handed out while "
+        "pending; SyncState makes no callback." + PART, BASE_NOTE,
+        "Coq proof over a Gallina model + differential correspondence with the Go code", "DESIGN.md §4 C19, §9"),
+    chk("C20", REG + "Proved: a table that is told to break hands back its whole player count. The settling bound is tested "
+        "(sweeps until quiet within 12), not proved." + PART, BASE_NOTE,
+        "Coq proof over a Gallina model (safety half) + differential correspondence; liveness tested", "DESIGN.md §4 C20, §9"),
 ]
 
 NOT_APPLICABLE = []
